@@ -365,10 +365,28 @@ func (t *SymTab) DomSym(v uint32) string {
 	}
 	return fmt.Sprintf("?%d", v)
 }
-func (t *SymTab) Nonce(i int) uint64 { return t.NonceBase + uint64(int64(i)) }
+// Nonces: abstract nonce i stands for base+i, piecewise: 0..999 plain, 1000..1999 shifted by 2^32,
+// 2000..2999 shifted by 2^63 -- so that keys which agree after a truncation to 32 or 63 bits are DIFFERENT
+// abstract nonces (TLC's integers are 32-bit; the concrete values never enter the specification).
+func (t *SymTab) Nonce(i int) uint64 {
+	switch {
+	case i >= 2000 && i < 3000:
+		return t.NonceBase + (1 << 63) + uint64(i-2000)
+	case i >= 1000 && i < 2000:
+		return t.NonceBase + (1 << 32) + uint64(i-1000)
+	}
+	return t.NonceBase + uint64(int64(i))
+}
 func (t *SymTab) NonceSym(v uint64) int {
 	d := v - t.NonceBase
-	if d < 1_000_000 {
+	switch {
+	case d < 1000:
+		return int(d)
+	case d-(1<<32) < 1000:
+		return 1000 + int(d-(1<<32))
+	case d-(1<<63) < 1000:
+		return 2000 + int(d-(1<<63))
+	case d < 1_000_000:
 		return int(d)
 	}
 	return -777
